@@ -19,5 +19,23 @@ CHECKS = {
         note="Trusted: CPython ast; mixed-radix uniqueness lemma; datetime/timedelta arithmetic. dekad.py is never imported or executed.",
         technique="static analysis: abstract interpretation (interval + exact residue/affine domain) of expression ASTs, sibling descriptor comparison",
     ),
+    "C13": dict(
+        category=OTHER,
+        text="Decides the ABSENCE OF FOUR ENUMERATED DIVERGENCE CLASSES between Numba and interpreter semantics, for every kernel and every declared "
+             "signature, from Numba's typed IR (type inference only, nothing lowered or run) and the syntax tree: narrow-integer arithmetic (NB-PROMOTE), "
+             "variables unified across numeric types and used in arithmetic (NB-UNIFY), unguarded scalar divisions (R-DIVGUARD), and disagreement of the "
+             "vendored scipy.special binding tables / non-float64 overloads (R-VENDOR); also that every declared signature types. It does not decide value equality.",
+        note="Trusted: Numba's type inference in /venv is the one the real build uses; NumPy NEP-50 scalar promotion; the frozen lemma/contract table of sa/divs.py "
+             "(pivots, contract minimums, Brent port and GCV denominators are listed, not decided). The differential statement beyond the four classes is declined.",
+        technique="static analysis: Numba typed-IR fact extraction (types of every binop/store/call per declared signature) + CFG dominance / reaching definitions for division guards",
+    ),
+    "C19": dict(
+        category=OTHER,
+        text="Static rule conformance on IterativeAggregation._iteragg: both Index.get_indexer results must pass a test for the -1 sentinel that raises ValueError on "
+             "every CFG path before use (must-pass-through); the window index arithmetic (begin_ix = pos+1, end_ix = pos, descending range to 1, stop at ii <= end_ix, "
+             "window [ii-n, ii) iff ii-n >= 0), the agg_* stamping and the reducer table are compared as integer normal forms.",
+        note="Trusted: pandas contract that Index.get_indexer returns -1 for a missing label and does not raise; xarray reduce/expand_dims/assign_attrs semantics.",
+        technique="static analysis: statement CFG must-pass-through + integer-comparison normal forms on the syntax tree",
+    ),
 }
 NOT_APPLICABLE = {}
